@@ -564,6 +564,38 @@ class Splicer:
             if not first.startswith(GHOST_PREFIXES):
                 raise SpliceError("%s: %s inserts non-ghost text: %r" % (key, what, first[:60]))
 
+        # `//@local NAME ord=K kind=letmut|let|for`: NAME is the local declared by the K-th binding (`let [mut] x` / `for x in`) of
+        # the body.  If that binding now declares another identifier and NAME occurs nowhere in the function any more, the local
+        # was renamed: every use of NAME in the ghost text of this function is replaced by the new identifier (never after `.`).
+        binds = []
+        if it.has_body:
+            for i in range(body_open, body_close):
+                if toks[i].kind == "ident" and toks[i].text == "let":
+                    j = i + 1
+                    kind = "let"
+                    if toks[j].text == "mut":
+                        kind, j = "letmut", j + 1
+                    if toks[j].kind == "ident":
+                        binds.append((kind, toks[j].text))
+                elif toks[i].kind == "ident" and toks[i].text == "for" and toks[i + 1].kind == "ident" and toks[i + 2].text == "in":
+                    binds.append(("for", toks[i + 1].text))
+        renames = {}
+        idents0 = {t.text for t in toks if t.kind == "ident"}
+        for (name, args, slines, sline_no) in sections:
+            if name == "local":
+                parts = args.split()
+                lk = parse_kv(" ".join(parts[1:]))
+                k = int(lk.get("ord", "-1"))
+                if 0 <= k < len(binds) and binds[k][0] == lk.get("kind", binds[k][0]) and binds[k][1] != parts[0] and parts[0] not in idents0:
+                    renames[parts[0]] = binds[k][1]
+                    self.log.append("%s: local `%s` is now called `%s` (binding %d): ghost text adapted" % (key, parts[0], binds[k][1], k))
+        sections = [x for x in sections if x[0] != "local"]
+        if renames:
+            def ren(l):
+                for a, b in renames.items():
+                    l = re.sub(r"(?<![.\w])%s(?!\w)" % re.escape(a), b, l)
+                return l
+            sections = [(n_, ren(a_) if n_ in ("at", "before", "after") else a_, [ren(l) for l in sl], no) for (n_, a_, sl, no) in sections]
         # `#if_local(NAME) text`: the line is kept only while the function still has a local / parameter called NAME
         # (a clause that ties a ghost variable to a program variable must not make the file uncompilable when a change
         # removes that variable; the dropped line is logged)
